@@ -863,3 +863,158 @@ Qed.
 Theorem ip6_bytes_value lit : matches IPv6address lit ->
   ip6_bytes lit = ip6_value lit /\ length (ip6_bytes lit) = 16%nat.
 Proof. intros H. apply ip6_bytes_value_structured. apply ip6_shape_of_matches. exact H. Qed.
+
+(* ------------------------------------------------------------------ printing the sixteen bytes *)
+Lemma hex_letter_lower v : v <= 15 -> hex_to_letter_ex v false = lower_hex v.
+Proof.
+  intros H. unfold hex_to_letter_ex, lower_hex.
+  destruct (v <? 10) eqn:E1; [reflexivity|]. destruct (v <? 15) eqn:E2; [reflexivity|].
+  replace v with 15 by lia. reflexivity.
+Qed.
+
+Lemma pieces_step hi lo r i : Nat.even i = true ->
+  concat (ip6_byte_pieces (hi :: lo :: r) i) =
+  [hex_to_letter_ex (hi / 16) false; hex_to_letter_ex (hi mod 16) false;
+   hex_to_letter_ex (lo / 16) false; hex_to_letter_ex (lo mod 16) false]
+  ++ (if Nat.ltb (S i) 15 then [58] else []) ++ concat (ip6_byte_pieces r (S (S i))).
+Proof.
+  intros Hev. cbn [ip6_byte_pieces]. rewrite Nat.odd_succ, Hev. unfold Nat.odd at 1. rewrite Hev.
+  cbn [negb andb app concat]. destruct (Nat.ltb (S i) 15); reflexivity.
+Qed.
+
+Lemma render_gen n : forall b i, length b = (2 * n)%nat -> Nat.even i = true -> (i + 2 * n = 16)%nat ->
+  Forall (fun x => x <= 255) b -> concat (ip6_byte_pieces b i) = groups_text b.
+Proof.
+  induction n as [|n IH]; intros b i Hl Hev Hi Hb.
+  - destruct b; [reflexivity|discriminate].
+  - destruct b as [|hi [|lo r]]; cbn [length] in Hl; try lia.
+    inversion Hb as [|? ? Hhi Hb1]; subst. inversion Hb1 as [|? ? Hlo Hr]; subst.
+    rewrite pieces_step by exact Hev.
+    rewrite !hex_letter_lower by dm_lia.
+    cbn [groups_text]. unfold hex4. cbn [app]. do 4 f_equal.
+    destruct r as [|r0 r'].
+    + destruct (Nat.ltb (S i) 15) eqn:E; [apply Nat.ltb_lt in E; cbn [length] in Hl; lia|]. reflexivity.
+    + assert (E : Nat.ltb (S i) 15 = true) by (apply Nat.ltb_lt; cbn [length] in Hl; lia).
+      rewrite E. cbn [app]. f_equal. apply IH; [lia| |lia|exact Hr].
+      rewrite !Nat.even_succ, <- Nat.negb_even, Nat.even_succ. unfold Nat.odd. rewrite Hev. reflexivity.
+Qed.
+
+(* the copies made by uriToString for the sixteen bytes spell the full eight-group lower-case form *)
+Theorem ip6_render b : length b = 16%nat -> Forall (fun x => x <= 255) b ->
+  concat (ip6_byte_pieces b 0) = groups_text b.
+Proof. intros Hl Hb. apply (render_gen 8); auto. Qed.
+
+(* ------------------------------------------------------------------ the canonical text denotes the same address *)
+Fixpoint hexgroups (b : list N) : list text :=
+  match b with hi :: lo :: r => hex4 hi lo :: hexgroups r | _ => [] end.
+
+Lemma groups_text_joinc n : forall b, length b = (2 * n)%nat -> groups_text b = joinc (hexgroups b).
+Proof.
+  induction n as [|n IH]; intros b Hl.
+  - destruct b; [reflexivity|discriminate].
+  - destruct b as [|hi [|lo r]]; cbn [length] in Hl; try lia.
+    cbn [groups_text hexgroups]. destruct r as [|r0 [|r1 r']].
+    + cbn [hexgroups joinc]. apply app_nil_r.
+    + cbn [length] in Hl. lia.
+    + rewrite (IH (r0 :: r1 :: r')) by (cbn [length] in *; lia). cbn [hexgroups]. rewrite joinc_cons2. reflexivity.
+Qed.
+
+Lemma lower_hex_hexdig v : v <= 15 -> is_hexdig (lower_hex v) = true /\ hexdig_to_int (lower_hex v) = v.
+Proof.
+  intros H. unfold lower_hex, is_hexdig, hexdig_to_int.
+  destruct (v <? 10) eqn:E.
+  - assert (E1 : is_digit (48 + v) = true) by (unfold is_digit, in_range; lia). rewrite E1. split; [reflexivity|lia].
+  - assert (E1 : is_digit (87 + v) = false) by (unfold is_digit, in_range; lia).
+    assert (E2 : is_hex_lower (87 + v) = true) by (unfold is_hex_lower, in_range; lia).
+    rewrite E1, E2. split; [apply orb_true_r|lia].
+Qed.
+
+Lemma hex4_h16 hi lo : hi <= 255 -> lo <= 255 -> is_h16 (hex4 hi lo) /\ gv (hex4 hi lo) = [hi; lo].
+Proof.
+  intros Hhi Hlo.
+  destruct (lower_hex_hexdig (hi / 16)) as [A1 A2]; [dm_lia|].
+  destruct (lower_hex_hexdig (hi mod 16)) as [B1 B2]; [dm_lia|].
+  destruct (lower_hex_hexdig (lo / 16)) as [C1 C2]; [dm_lia|].
+  destruct (lower_hex_hexdig (lo mod 16)) as [D1 D2]; [dm_lia|].
+  split.
+  - split; [|cbn [hex4 length]; lia]. unfold hex4. cbn [forallb]. rewrite A1, B1, C1, D1. reflexivity.
+  - unfold gv, hex_value, hex4. cbn [fold_left]. rewrite A2, B2, C2, D2.
+    match goal with |- [?p; ?q] = [?r; ?s] =>
+      assert (E1 : p = r) by dm_lia; assert (E2 : q = s) by dm_lia;
+      exact (f_equal2 (fun x y => [x; y]) E1 E2) end.
+Qed.
+
+Lemma hexgroups_ok n : forall b, length b = (2 * n)%nat -> Forall (fun x => x <= 255) b ->
+  Forall is_h16 (hexgroups b) /\ den (hexgroups b) = b /\ length (hexgroups b) = n.
+Proof.
+  induction n as [|n IH]; intros b Hl Hb.
+  - destruct b; [cbn [hexgroups den flat_map length]; auto|discriminate].
+  - destruct b as [|hi [|lo r]]; cbn [length] in Hl; try lia.
+    inversion Hb as [|? ? Hhi Hb1]; subst. inversion Hb1 as [|? ? Hlo Hr]; subst.
+    destruct (IH r) as [I1 [I2 I3]]; [lia|exact Hr|].
+    destruct (hex4_h16 hi lo Hhi Hlo) as [G1 G2].
+    cbn [hexgroups den flat_map length]. fold (den (hexgroups r)). rewrite G2, I2, I3. auto.
+Qed.
+
+(* the full eight-group lower-case text denotes the bytes it was made from *)
+Theorem ip6_value_groups_text b : length b = 16%nat -> Forall (fun x => x <= 255) b ->
+  ip6_value (groups_text b) = b.
+Proof.
+  intros Hl Hb. rewrite (groups_text_joinc 8) by exact Hl.
+  destruct (hexgroups_ok 8 b Hl Hb) as [HG [HD HL]].
+  destruct (@exists_last _ (hexgroups b)) as [G [g E]]; [intros F; rewrite F in HL; discriminate|].
+  rewrite E in *. apply Forall_app in HG. destruct HG as [HG Hg]. inversion Hg as [|? ? Hg' _]; subst.
+  rewrite joinc_snoc. change g with (tail_text (TH g)) at 1. rewrite (spec_full G (TH g)); [|exact HG|exact Hg'|discriminate].
+  cbn [tail_val].
+  rewrite den_app. cbn [den flat_map]. rewrite app_nil_r. reflexivity.
+Qed.
+
+(* ------------------------------------------------------------------ every stored byte is an octet *)
+Lemma hex_value_bound g : is_h16 g -> hex_value g < 65536.
+Proof.
+  intros [Hh [H1 H4]]. unfold hex_value.
+  destruct g as [|a [|b [|c [|d [|e g]]]]]; cbn [length] in H1, H4; try lia;
+    cbn [forallb] in Hh; rewrite ?andb_true_iff in Hh;
+    repeat match goal with H : _ /\ _ |- _ => destruct H end;
+    repeat match goal with H : is_hexdig _ = true |- _ => apply hexdig_to_int_lt in H end;
+    cbn [fold_left]; lia.
+Qed.
+
+Lemma den_le G : Forall is_h16 G -> Forall (fun x => x <= 255) (den G).
+Proof.
+  intros HG. induction HG as [|g G Hg HG IH]; cbn [den flat_map]; [constructor|].
+  apply hex_value_bound in Hg. unfold gv at 1. cbn [app]. constructor; [dm_lia|]. constructor; [dm_lia|]. exact IH.
+Qed.
+
+Lemma tail_val_le t : tail_ok t -> Forall (fun x => x <= 255) (tail_val t).
+Proof.
+  destruct t as [|g|a b c d]; cbn [tail_ok tail_val]; intros H.
+  - constructor.
+  - apply (den_le [g]). constructor; [exact H|constructor].
+  - destruct H as [[_ [_ Ha]] [[_ [_ Hb]] [[_ [_ Hc]] [_ [_ Hd]]]]]. repeat constructor; assumption.
+Qed.
+
+Lemma ip6_value_octets_structured lit : ip6_shape lit -> Forall (fun x => x <= 255) (ip6_value lit).
+Proof.
+  intros [L t HL Ht Hn Hlen | L R t HL HR Ht Hn Hlen].
+  - rewrite spec_full by assumption. apply Forall_app. auto using den_le, tail_val_le.
+  - rewrite spec_zip by assumption. repeat (apply Forall_app; split); auto using den_le, tail_val_le.
+    apply Forall_forall. intros x Hx. apply repeat_spec in Hx. subst. lia.
+Qed.
+
+(* the scanner stores sixteen octets *)
+Theorem ip6_bytes_octets lit : matches IPv6address lit -> Forall (fun x => x <= 255) (ip6_bytes lit).
+Proof.
+  intros H. apply ip6_shape_of_matches in H.
+  rewrite (proj1 (ip6_bytes_value_structured lit H)). apply ip6_value_octets_structured. exact H.
+Qed.
+
+(* parse, then print: the literal comes out as the full eight-group lower-case text of the value
+   written in the input, and that text denotes the same value *)
+Theorem ip6_roundtrip lit : matches IPv6address lit ->
+  concat (ip6_byte_pieces (ip6_bytes lit) 0) = groups_text (ip6_value lit)
+  /\ ip6_value (groups_text (ip6_value lit)) = ip6_value lit.
+Proof.
+  intros H. pose proof (ip6_bytes_octets lit H) as Ho. destruct (ip6_bytes_value lit H) as [E Hl].
+  rewrite <- E. split; [apply ip6_render|apply ip6_value_groups_text]; assumption.
+Qed.
